@@ -5,6 +5,7 @@ import JominiModel.Proofs.TextReader
 import JominiModel.Proofs.TextReaderStream
 import JominiModel.Proofs.TextReaderFast
 import JominiModel.Proofs.TextFault
+import JominiModel.Proofs.TextReaderFaithful
 import JominiModel.Generated.Tables
 /-
 C07 — the streaming text reader is independent of read chunking and buffer size.
@@ -25,6 +26,8 @@ Proved here (about the model `Model/TextReader.lean`):
   outcome, final position = |data| at a clean end) or ends in the error `BufferFull` after a PREFIX of the from-slice
   tokens; for cap > |data| it always equals it.
 
+* `C07_slice_faithful`, `C07_stream_faithful`: on the rendering of any document under a valid reader-safe layout the
+  reader returns exactly the document's lexeme list (slice reader; streaming reader for every schedule and fitting cap);
 * `C07_full_only_if_unfit`, `C07_stream_eq_slice_fits`: with `need data ≤ cap` (the decidable fit predicate) the run
   never ends in `BufferFull`, hence streamed = from-slice for every capacity that fits.
 
@@ -355,6 +358,53 @@ theorem C07_stream_eq_slice_fits (data : Bytes) (cap : Nat) (sched : List Step) 
   rcases C07_stream_eq_slice data cap sched hcap hw hnf with ⟨a, _, _⟩ | h
   · exact absurd a (C07_full_only_if_unfit data cap sched hw hfit)
   · exact h
+
+/-! ### faithfulness on rendered documents -/
+
+/-- **`C07_slice_faithful`.**  For every document `ms` — fields `key op value`, array elements, containers nested to
+any depth, quoted and unquoted scalars — and every valid READER-SAFE layout (`ValidM`: gaps made of blanks and complete
+`#` comments, `;` never glued to a scalar, every unquoted scalar followed by a boundary byte, `=`/`<`/`>` not followed by
+`=`; an optional BOM; trailing filler `gt`, which may end in an unterminated comment), the from-slice reader over the
+rendering returns exactly the lexeme list of the document — `Open` / `Close` / `Operator` / `Unquoted` / `Quoted` with the
+scalar bytes —, ends cleanly, and its final position is the input length. -/
+theorem C07_slice_faithful (ms : DMembers) (gt : Bytes) (bom : Bool) (hv : ValidM ms gt) (hgt : EndGap gt)
+    (hclash : bom = false → ¬∃ r', renderM ms ++ gt = 0xef :: 0xbb :: 0xbf :: r') :
+    (sliceTokens (bomBytes bom ++ (renderM ms ++ gt))).toks = (itemsM ms).map (fun x => x.2.tok) ∧
+    (sliceTokens (bomBytes bom ++ (renderM ms ++ gt))).out = .end_ ∧
+    (sliceTokens (bomBytes bom ++ (renderM ms ++ gt))).final.position = (bomBytes bom ++ (renderM ms ++ gt)).length :=
+  slice_faithful ms gt bom hv hgt hclash
+
+/-- the same at the level of lexeme lists with gaps (what the document theorem is proved from). -/
+theorem C07_slice_faithful_lexemes (items : List (Bytes × Lexeme)) (gt : Bytes) (bom : Bool) (hv : ValidLex items gt)
+    (hclash : bom = false → ¬∃ r', renderLex items gt = 0xef :: 0xbb :: 0xbf :: r') :
+    (sliceTokens (bomBytes bom ++ renderLex items gt)).toks = items.map (fun x => x.2.tok) ∧
+    (sliceTokens (bomBytes bom ++ renderLex items gt)).out = .end_ ∧
+    (sliceTokens (bomBytes bom ++ renderLex items gt)).final.position = (bomBytes bom ++ renderLex items gt).length :=
+  slice_faithful_lexemes items gt bom hv hclash
+
+/-- **`C07_stream_faithful`.**  … and therefore, for every fault-free read schedule and every buffer capacity that fits
+(`need (rendering) ≤ cap`), the STREAMING reader returns exactly the lexeme list of the document, ends cleanly, at the end
+of the input. -/
+theorem C07_stream_faithful (ms : DMembers) (gt : Bytes) (bom : Bool) (cap : Nat) (sched : List Step)
+    (hv : ValidM ms gt) (hgt : EndGap gt)
+    (hclash : bom = false → ¬∃ r', renderM ms ++ gt = 0xef :: 0xbb :: 0xbf :: r')
+    (hw : WfSched sched) (hnf : NoFaults sched) (hfit : need (bomBytes bom ++ (renderM ms ++ gt)) ≤ cap) :
+    (streamTokens cap sched (bomBytes bom ++ (renderM ms ++ gt))).toks = (itemsM ms).map (fun x => x.2.tok) ∧
+    (streamTokens cap sched (bomBytes bom ++ (renderM ms ++ gt))).out = .end_ ∧
+    (streamTokens cap sched (bomBytes bom ++ (renderM ms ++ gt))).final.position =
+      (bomBytes bom ++ (renderM ms ++ gt)).length := by
+  obtain ⟨s1, s2, s3⟩ := C07_slice_faithful ms gt bom hv hgt hclash
+  obtain ⟨e1, e2, e3⟩ := C07_stream_eq_slice_fits _ cap sched hw hnf hfit
+  refine ⟨e1.trans s1, e2.trans s2, ?_⟩
+  exact (e3 (e2.trans s2)).1
+
+-- `a = { "x y" 1 } # c\n b>=2` : a field whose value is a container with two elements, then a field with `>=`
+example :
+    let doc : DMembers :=
+      .field [] false [97] [32] .eq (.cont [32] (.elem (.scal [32] true [120, 32, 121]) (.elem (.scal [32] false [49]) .nil)) [32])
+        (.field [32, 35, 32, 99, 10, 32] false [98] [] .ge (.scal [] false [50]) .nil)
+    (sliceTokens (renderM doc ++ [10])).toks = (itemsM doc).map (fun x => x.2.tok) := by
+  decide +kernel
 
 /-
 Not proved; statement kept as the obligation (exercised on the real code by the op `tneed`, oracle `need-not-tight`, and
